@@ -13,3 +13,10 @@ theorem tie_C12_goroutines : Generated.doGoroutines = 3 := by decide
 component unless neither mutates it, both hold a lock, or the component is safe for concurrent use -/
 theorem tie_C12_single_owner :
     raceFree (safeIdx Generated.doComponents) Generated.doAccesses = true := by decide
+
+/-- the handshake starts exactly its two goroutines (hello exchange, cancellation watchdog) … -/
+theorem tie_C12_handshake_goroutines : Generated.handshakeGoroutines = 2 := by decide
+
+/-- … and they share nothing but the connection itself -/
+theorem tie_C12_handshake_single_owner :
+    raceFree (safeIdx Generated.handshakeComponents) Generated.handshakeAccesses = true := by decide
